@@ -234,7 +234,7 @@ def check_props(pid: str):
     res = dict(ok=(rc == 0), theorems=_theorem_names(src), axioms=axioms, log=(o + e)[-4000:], failed=f"Props/{pid}.v" if rc else None)
     tie = gen_tie(pid)
     if tie is not None:
-        res["source_tie"] = {k: tie[k] for k in ("ok", "files", "units", "untranslated", "failed")}
+        res["source_tie"] = {k: tie.get(k) for k in ("ok", "files", "units", "untranslated", "failed", "oracles")}
         res["theorems"] = res["theorems"] + tie["theorems"]
         res["axioms"] = sorted(set(res["axioms"]) | set(tie["axioms"]))
         if not tie["ok"]:
@@ -266,6 +266,8 @@ def gen_tie(pid: str):
             return out
         out["untranslated"] = errors
         out["units"] = text.count("\nDefinition ")
+        mctx = re.search(r"Context \{A : Arith\}(.*)\.\n", text)
+        out["oracles"] = re.findall(r"\((\w+) :", mctx.group(1)) if mctx else []
         if re.search(r"(?<![A-Za-z_0-9'])(Admitted|admit|Axiom|Axioms|Parameter|Parameters|Conjecture|Variable|Hypothesis|native_compute|Unset)(?![A-Za-z_0-9'])", re.sub(r"\(\*.*?\*\)", "", text, flags=re.S)):
             out.update(ok=False, failed="generated GSrc.v contains forbidden vernacular", log=text[:2000])
             return out
@@ -592,7 +594,8 @@ class Check:
             ] + ([
                 f"source tie: harness/py2coq.py (fail-closed translator, semantics assumed as stated in its header; typing hints in harness/gen_units.py) "
                 f"generated {proof['source_tie']['units']} definitions from /repo's current source; coq/Gen/{', '.join(proof['source_tie']['files'])} prove them equal to the model "
-                f"(ok={proof['source_tie']['ok']}; not translated: {proof['source_tie']['untranslated'] or 'none'})"
+                f"(ok={proof['source_tie']['ok']}; not translated: {proof['source_tie']['untranslated'] or 'none'}); library calls kept as uninterpreted function parameters of the generated file: "
+                f"{', '.join(proof['source_tie'].get('oracles') or []) or 'none'}"
             ] if proof.get("source_tie") else []),
             theorems=proof.get("theorems", []),
             evaluations=self.evals,
